@@ -84,6 +84,8 @@ CORPUS = [
     {'netlist': ['V1 1 0 step 5', 'R1 1 2 2', 'L1 2 0 3', 'L2 2 0 5 2'], 'op': 'simplify', 'args': {}, 's0': '3/2', 'tags': ['corpus', 'ic-mixed:L-parallel']},
     {'netlist': ['V1 a b 10', 'R1 a 0 1', 'R2 0 b 1', 'R3 a b 5'], 'op': 'simplify', 'args': {}, 's0': '2', 'tags': ['corpus', 'series-through-ground']},
     {'netlist': ['V1 1 0 5', 'R1 1 2 1', 'R2 2 0 1', 'E1 3 0 2 0 10', 'R3 3 0 1'], 'op': 'simplify', 'args': {}, 's0': '2', 'tags': ['corpus', 'series-interior-sensed']},
+    {'netlist': ['V1 1 0 6', 'R1 1 2 1', 'R2 2 0 2', 'W 2 5', 'E1 3 0 5 0 2', 'R3 3 0 1'], 'op': 'simplify', 'args': {}, 's0': '2', 'tags': ['corpus', 'sensed-through-alias']},
+    {'netlist': ['V1 1 0 6', 'R1 1 2 1', 'R2 2 3 2', 'R3 3 0 3', 'W 2_1 2', 'W z7 3', 'G1 4 0 2_1 z7 2', 'R4 4 0 1'], 'op': 'simplify', 'args': {}, 's0': '2', 'tags': ['corpus', 'sensed-through-alias']},
     {'netlist': ['V1 1 0 step 5', 'R1 1 2 2', 'R2 2 3 3', 'R3 3 0 4', 'R4 1 4 1', 'R5 4 0 2'], 'op': 'simplify', 'args': {}, 's0': '2', 'tags': ['corpus', 'ok']},
     {'netlist': ['V1 1 0 step 5', 'R1 1 2 2', 'C1 2 3 3 1', 'C2 3 0 5 2', 'L1 2 0 3 1', 'L2 2 0 5 2'], 'op': 'simplify', 'args': {}, 's0': '3/2', 'tags': ['corpus', 'ok']},
     {'netlist': ['V1 1 0 step 5', 'R1 1 2 2', 'C2 2 0 2'], 'op': 'renumber', 'args': {}, 's0': '2', 'tags': ['corpus', 'renumber:none-arg']},
